@@ -45,8 +45,9 @@ PROPS = {
     },
     "C03": {
         "families": [
-            fam("ewise-grad", g(gen.fam_ewise, grads=True), 150, 3000, rule="distinct (op, broadcast-compatible shape pair, uses in {1,2,3}); both operands' gradients read"),
-            fam("dag", g(gen.fam_dag), 150, 3000, rule="distinct random programs; gradient shapes and values of every name read"),
+            fam("bcast-add", g(gen.fam_bcast_add), 150, 3000, rule="distinct (add|sub, broadcast-compatible shape pair with a != b, uses in 1..4): gradient dimensions and values (= sum of the seed over the broadcast positions) of both operands"),
+            fam("ewise-grad-shape", g(gen.fam_ewise, grads=True), 100, 2000, view="shape", rule="distinct (op, shape pair, uses): only the *dimensions* of the stored gradients are compared"),
+            fam("dag-shape", g(gen.fam_dag), 150, 3000, view="shape", rule="distinct random programs; only the dimensions of every stored gradient are compared"),
         ],
         "assumptions": [F64_NOTE, SEED_NOTE],
     },
@@ -80,45 +81,45 @@ PROPS = {
     },
     "C08": {
         "families": [
-            fam("history", g(gen.fam_history), 150, 5000, rule="distinct histories with at least one pass; after every command the harness compares every live handle with the bitwise copy taken when it was bound"),
-            fam("optim", g(gen.fam_optim), 60, 1500, rule="distinct parameter lists"),
-            fam("train", g(gen.fam_train), 40, 800, rule="distinct training runs with >= 2 iterations"),
+            fam("history", g(gen.fam_history), 150, 5000, view="none", kinds=["immut"], rule="distinct histories with at least one pass; after every command the harness compares every live handle with the bitwise copy taken when it was bound; only that verdict is decisive"),
+            fam("optim", g(gen.fam_optim), 60, 1500, view="none", kinds=["immut"], rule="distinct parameter lists; older clones of updated parameters re-read"),
+            fam("train", g(gen.fam_train), 40, 800, view="none", kinds=["immut"], rule="distinct training runs with >= 2 iterations"),
+            fam("transparent", g(gen.fam_transparent), 60, 1500, view="none", kinds=["immut"], rule="programs with clones, views, drops and re-binding"),
         ],
         "assumptions": [F64_NOTE, BYVALUE_NOTE, "Rust's guarantee that a shared Rc<Vec<_>> without interior mutability cannot be written in safe code"],
     },
     "C09": {
         "families": [
-            fam("flags", g(gen.fam_flags), 80, 2000, rule="every operand flag assignment (6 ways of setting a flag) of every binary/unary op and matmul's 8 assignments; random programs with an untracked intermediate"),
-            fam("flags-float", g(gen.fam_flags, mode="float"), 30, 600, mode="float", rule="as above with the non-ring operations"),
-            fam("history", g(gen.fam_history), 100, 3000, rule="distinct histories with start/stop/tracked/untracked on handles and clones between passes"),
+            fam("flags", g(gen.fam_flags), 80, 2000, view="flags", rule="every operand flag assignment (6 ways of setting a flag) of every binary/unary op and matmul's 8 assignments; random programs with an untracked intermediate"),
+            fam("flags-float", g(gen.fam_flags, mode="float"), 30, 600, mode="float", view="flags", rule="as above with the non-ring operations"),
+            fam("history", g(gen.fam_history), 100, 3000, view="flags", rule="distinct histories with start/stop/tracked/untracked on handles and clones between passes; only flags, gradient presence and stored-operand flags are compared"),
         ],
         "assumptions": [F64_NOTE, SEED_NOTE, BYVALUE_NOTE],
     },
     "C10": {
         "families": [
-            fam("history", g(gen.fam_history), 200, 6000, rule="distinct histories: passes on the same result again, interior nodes then results containing them, shared sub-graphs, clears and sets in between; probe of every live node after every pass"),
-            fam("history-float", g(gen.fam_history, mode="float"), 50, 1000, mode="float", rule="as above"),
+            fam("accumulate", g(gen.fam_accumulate), 200, 6000, view="cntpend", rule="distinct (program, pass sequence, clear point): 2-4 passes (same result again / interior node then containing result / shared sub-graphs) next to one fresh instance per pass; every gradient = sum of the single-pass gradients since the last clear (the implementation against itself), counters and pending flags of every node after every pass"),
+            fam("history", g(gen.fam_history), 150, 4000, view="cntpend", rule="distinct histories; counters and pending flags of every live node after every pass"),
         ],
         "assumptions": [F64_NOTE, SEED_NOTE],
     },
     "C11": {
         "families": [
-            fam("customlog", g(gen.fam_customlog), 150, 5000, rule="exhaustive Array::op DAGs up to 3 (quick) / 4 (thorough) nodes, random ones up to 40 nodes; the invocation log of the user closures (label, received delta) is compared as a sorted list"),
-            fam("dag", g(gen.fam_dag), 60, 1500, rule="self-product chains to depth 45/60 (2^60 paths) and random programs"),
+            fam("customlog", g(gen.fam_customlog), 150, 5000, view="log", rule="exhaustive Array::op DAGs up to 3 (quick) / 4 (thorough) nodes, random ones up to 40 nodes; the invocation log of the user closures (label, received delta) is compared as a sorted list"),
+            fam("chains", g(gen.fam_chains), 0, 0, view="log", rule="self-product chains of user operations to depth 45 (quick) / 60 (thorough): 2^depth paths"),
         ],
         "assumptions": [F64_NOTE, "user closures are lawful"],
     },
     "C12": {
         "families": [
-            fam("transparent", g(gen.fam_transparent), 200, 6000, rule="distinct (program, set of edit kinds) with at least one edit: operand -> clone, drop after last use, re-bind, pass from a clone"),
-            fam("history", g(gen.fam_history), 60, 1500, rule="histories with clones / drops / re-binding"),
+            fam("transparent", g(gen.fam_transparent), 200, 6000, view="meta", rule="distinct (program, set of edit kinds) with at least one edit: operand -> clone, drop after last use, re-bind, pass from a clone"),
         ],
         "assumptions": [F64_NOTE, SEED_NOTE],
     },
     "C13": {
         "families": [
-            fam("optim", g(gen.fam_optim), 150, 4000, rule="every frozen subset of 1-4 parameters, random lists of 1-6, repeated updates, gradients from real passes"),
-            fam("optim-float", g(gen.fam_optim, mode="float"), 50, 1000, mode="float", rule="arbitrary learning rates"),
+            fam("optim", g(gen.fam_optim, frompass=False), 150, 4000, view="update", rule="every frozen subset of 1-4 parameters, random lists of 1-6, repeated updates, gradients from real passes"),
+            fam("optim-float", g(gen.fam_optim, mode="float", frompass=False), 50, 1000, mode="float", view="update", rule="arbitrary learning rates"),
         ],
         "assumptions": [F64_NOTE],
     },
@@ -145,27 +146,27 @@ PROPS = {
     },
     "C17": {
         "families": [
-            fam("linear", g(gen.fam_linear), 150, 5000, rule="distinct (program, alpha, beta) with (alpha, beta) != (0, 0): three fresh instances with s1, s2, alpha*s1+beta*s2, and a pair omitted-seed vs ones"),
+            fam("linear", g(gen.fam_linear), 150, 5000, view="meta", rule="distinct (program, alpha, beta) with (alpha, beta) != (0, 0): three fresh instances with s1, s2, alpha*s1+beta*s2, and a pair omitted-seed vs ones"),
         ],
         "assumptions": [F64_NOTE, SEED_NOTE],
     },
     "C18": {
         "families": [
-            fam("release", g(gen.fam_release), 200, 6000, rule="distinct programs: build, pass(es), drop every derived result in random order, then Vec::from on every leaf; Rc owner counts compared after every drop"),
-            fam("train", g(gen.fam_train), 60, 1500, rule="training runs: the previous iteration's input is owned again after the next forward"),
-            fam("history", g(gen.fam_history), 60, 1500, rule="owner counts after every pass"),
+            fam("release", g(gen.fam_release), 200, 6000, view="rc", rule="distinct programs: build, pass(es), drop every derived result in random order, then Vec::from on every leaf; Rc owner counts compared after every drop"),
+            fam("train", g(gen.fam_train), 60, 1500, view="rc", rule="training runs: the previous iteration's input is owned again after the next forward"),
+            fam("history", g(gen.fam_history), 60, 1500, view="rc", rule="owner counts after every pass"),
         ],
         "assumptions": [F64_NOTE, BYVALUE_NOTE, "Rc's own correctness; reachable references = strong_count (no cycles, no Weak), compared numerically on every probe"],
     },
     "C19": {
         "variants": ["f64", "f32"],
         "families": [
-            fam("ewise-f32", g(gen.fam_ewise), 100, 3000, variant="f32", rule="distinct shape pairs, exact channel (integers < 2^24) against the f32 build"),
-            fam("matmul-f32", g(gen.fam_matmul), 60, 1500, variant="f32", rule="distinct configurations, exact channel"),
-            fam("conv-f32", g(gen.fam_conv), 60, 800, variant="f32", rule="distinct configurations, exact channel"),
-            fam("reduce-f32", g(gen.fam_reduce), 0, 0, variant="f32", rule="every shape / k / map, exact channel"),
-            fam("dag-f32", g(gen.fam_dag), 80, 2000, variant="f32", rule="distinct programs with gradients, exact channel"),
-            fam("ewise-grad-f32", g(gen.fam_ewise, grads=True), 40, 1000, variant="f32", rule="gradients of broadcast pairs"),
+            fam("ewise-f32", g(gen.fam_ewise), 100, 3000, variant="f32", baseline_variant="f64", rule="distinct shape pairs, exact channel (integers < 2^24) against the f32 build"),
+            fam("matmul-f32", g(gen.fam_matmul), 60, 1500, variant="f32", baseline_variant="f64", rule="distinct configurations, exact channel"),
+            fam("conv-f32", g(gen.fam_conv), 60, 800, variant="f32", baseline_variant="f64", rule="distinct configurations, exact channel"),
+            fam("reduce-f32", g(gen.fam_reduce), 0, 0, variant="f32", baseline_variant="f64", rule="every shape / k / map, exact channel"),
+            fam("dag-f32", g(gen.fam_dag), 80, 2000, variant="f32", baseline_variant="f64", rule="distinct programs with gradients, exact channel"),
+            fam("ewise-grad-f32", g(gen.fam_ewise, grads=True), 40, 1000, variant="f32", baseline_variant="f64", rule="gradients of broadcast pairs"),
             fam("reduce-f32-float", g(gen.fam_reduce, mode="f32"), 0, 0, mode="f32", variant="f32", rule="non-ring maps against Lean Float32 with tolerance 2e-4"),
             fam("dag-f32-float", g(gen.fam_dag, mode="f32"), 60, 1500, mode="f32", variant="f32", rule="random programs against Lean Float32"),
         ],
